@@ -47,10 +47,16 @@ def codes(t: torch.Tensor):
     return [int(v) if i else int(b) for v, i, b in zip(a, isint, bits)]
 
 
+MAX_BUFFER = 512      # constant tables (BERT positional encoding, 20000 entries) stay out of the exchange
+
+
 def snap(module):
-    # remove_duplicate=False: tied weights (GPT wte / lm_head) are listed under each of their names, so the
-    # signature does not depend on whether a re-creation keeps the tie
-    return [[k, list(p.shape), codes(p.data)] for k, p in module.named_parameters(remove_duplicate=False)]
+    """everything preserve_parameters carries over (since aa86ee5): parameters AND buffers (running statistics,
+    noise buffers, num_batches_tracked). remove_duplicate=False: tied weights (GPT wte / lm_head) are listed under
+    each of their names, so the signature does not depend on whether a re-creation keeps the tie."""
+    out = [[k, list(p.shape), codes(p.data)] for k, p in module.named_parameters(remove_duplicate=False)]
+    out += [[k, list(b.shape), codes(b.data.float())] for k, b in module.named_buffers() if b.numel() <= MAX_BUFFER]
+    return out
 
 
 def snap_state(module):
@@ -68,9 +74,9 @@ def arr(entry):
 def fill_distinct(module, start, step):
     v = start
     with torch.no_grad():
-        for p in module.parameters():
+        for p in list(module.parameters()) + list(module.buffers()):
             n = p.numel()
-            p.copy_(torch.arange(v, v + step * n, step, dtype=torch.float32)[:n].reshape(p.shape))
+            p.copy_(torch.arange(v, v + step * n, step, dtype=torch.float32)[:n].reshape(p.shape).to(p.dtype))
             v += step * n
     return v
 
@@ -227,13 +233,15 @@ class C04(vlib.Driver):
             argn = {meth: B.method_params(m, meth) for meth in methods}
             del m
 
-            def args_for(meth, guard=None):
+            def args_for(meth, guard=None, effective=False):
                 kw = {}
                 for a in argn[meth]:
                     ch = B.ARG_CHOICES[a]
                     if meth.split(".")[-1] == "change_kernel":
                         ch = [None]
                     v = rng.choice(ch)
+                    if effective:                      # small change that passes the HARD LIMIT guards of the tiny blocks
+                        v = rng.choice([1, 1, 2]) if a.startswith("numb_new") else (rng.choice([None, 0]) if a == "hidden_layer" else v)
                     if guard and a.startswith("numb_new"):
                         v = 100
                     if v is not None:
@@ -243,6 +251,13 @@ class C04(vlib.Driver):
             # every advertised method once from the initial architecture, once forced onto its guard,
             # each followed by clone + reinit; then seeded chains
             for meth in methods:
+                # clone -> (train) -> mutate -> clone -> mutate again -> clone -> reinit: clones and re-created encoders are
+                # built from init_dict, so every generation of the chain must report its LIVE architecture
+                latent = [x for x in methods if x.endswith("latent_node")]
+                second = rng.choice(latent) if latent and rng.random() < 0.6 else rng.choice(methods)
+                cases.append({"kind": "e2e", "block": blk, "seed": nseed,
+                              "ops": [["clone"], ["train"], ["mut", meth, args_for(meth, effective=True)], ["clone"],
+                                      ["mut", second, args_for(second, effective=True)], ["clone"], ["reinit"]]}); nseed += 1
                 cases.append({"kind": "e2e", "block": blk, "seed": nseed, "ops": [["train"], ["mut", meth, args_for(meth)], ["clone"], ["reinit"]]}); nseed += 1
                 if any(a.startswith("numb_new") for a in argn[meth]):
                     cases.append({"kind": "e2e", "block": blk, "seed": nseed, "ops": [["train"], ["mut", meth, args_for(meth, guard=True)]]}); nseed += 1
@@ -253,9 +268,9 @@ class C04(vlib.Driver):
                 ops = []
                 for _ in range(L):
                     r = rng.random()
-                    if r < 0.7:
+                    if r < 0.55:
                         meth = rng.choice(methods)
-                        ops.append(["mut", meth, args_for(meth)])
+                        ops.append(["mut", meth, args_for(meth, effective=rng.random() < 0.5)])
                     elif r < 0.8:
                         ops.append(["clone"])
                     elif r < 0.88:
@@ -368,7 +383,9 @@ class C04(vlib.Driver):
             rec["out_shape_equal"] = tuple(y_a.shape) == tuple(y_b.shape)
             rec["out_equal"] = bool(rec["out_shape_equal"] and torch.allclose(y_a, y_b, rtol=1e-5, atol=1e-6, equal_nan=True))
             rec["out_maxdiff"] = float((y_a - y_b).abs().max()) if rec["out_shape_equal"] and y_a.numel() else None
-            rec["params_equal"] = p_a == p_b
+            rec["params_equal"] = p_a == p_b                      # parameters and buffers
+            npar = len(list(m.named_parameters(remove_duplicate=False)))
+            rec["weights_equal"] = p_a[:npar] == p_b[:npar]         # parameters only
             rec["buffers_equal"] = b_a == b_b
             rec["buffers_changed"] = sorted({k for (k, s, v), (k2, s2, v2) in zip(b_a, b_b) if (s, v) != (s2, v2)}
                                              | ({k for k, _, _ in b_a} ^ {k for k, _, _ in b_b}))[:6]
@@ -593,7 +610,7 @@ class C04(vlib.Driver):
                 if not rec["same_arch"]:
                     out.append(Violation(f"{op[0]}-arch", f"e2e:{op[0]}-arch:{blk}", f"{where}: init_dict of the copy differs"))
             elif op[0] == "train":
-                if not rec["params_equal"]:
+                if not rec["weights_equal"]:
                     out.append(Violation("harness", "harness-error:train-forward-changed-parameters", where, found_input=False))
             if out:
                 for v in out:
